@@ -266,6 +266,14 @@ def posMap (bytes : List Nat) (off : Nat) : Nat :=
   let b := ensureFinalNewline bytes
   (spliceEmit (canonicalizeNewline ((skipBOM b).take (off - bomLen b))) 0).length
 
+/-- offsets of the file at which a token can start: a byte of the file, after the BOM, that is not part of a
+    line terminator (no token starts with CR or LF) -/
+def tokenStart (bytes : List Nat) (off : Nat) : Bool :=
+  decide (bomLen (ensureFinalNewline bytes) ≤ off) &&
+  match bytes[off]? with
+  | some c => c != LF && c != CR
+  | none => false
+
 /-- line number chibicc's tokenizer gives the token whose first byte is at offset `off` of the file -/
 def lineNoAt (bytes : List Nat) (off : Nat) : Nat := lineNoOf (sourceText bytes) (posMap bytes off)
 
